@@ -71,8 +71,11 @@ impl Image {
 
     pub(crate) fn vec_from_document(document: &Document) -> Result<Vec<Self>> {
         let mut images = Vec::new();
+        // Only a direct child of the root element is the list of images, anything inside
+        // of other elements (for example from extensions) has a different meaning
         if let Some(images2d_node) = document
-            .descendants()
+            .root_element()
+            .children()
             .find(|n| xml::has_name(n, "images2D"))
         {
             for n in images2d_node.children() {
